@@ -150,6 +150,29 @@ theorem init_first_success_wins {M : Type} (fails : List (Except BootErr M)) (h 
     simp only [List.cons_append, initRun, init]
     exact this
 
+/-- **overlapping first initialisations keep one manager**: in whatever order the callers obtain the holder's lock, what
+is installed after each of them - hence what any caller sees once its own call has returned, and what is installed in
+the end - is the manager of the caller that came first -/
+theorem set_overlapping_one_winner {M : Type} (m : M) (ms : List M) :
+    ∀ x ∈ setRun (none : Option M) (m :: ms), x = some m := by
+  have h : ∀ (l : List M) (c : M), ∀ x ∈ setRun (some c) l, x = some c := by
+    intro l c
+    induction l with
+    | nil => intro x hx; cases hx
+    | cons a as ih =>
+      intro x hx
+      simp only [setRun, setManager, List.mem_cons] at hx
+      rcases hx with rfl | hx
+      · rfl
+      · exact ih x hx
+  intro x hx
+  simp only [setRun, setManager, List.mem_cons] at hx
+  rcases hx with rfl | hx
+  · rfl
+  · exact h ms m x hx
+
+example : setRun (none : Option Nat) [3, 1, 2] = [some 3, some 3, some 3] := by decide
+
 example : initRun (none : Option Nat) [.error .noName, .error .noNamespace, .ok 7, .error .noIP, .ok 9] = (some 7, [false, false, true, true, true]) := by decide
 
 /-! non-vacuity: the prefix case that separates element from substring membership -/
